@@ -1,0 +1,29 @@
+//go:build verif
+
+// Contracts for the gvc verification-condition generator (see /verif/DESIGN.md).
+// This file contains no executable code: a package clause and comments only.
+
+package file
+
+/*@
+// Ghosts recording what WriteLTXFile did: the path it published, the header timestamp it read.
+ghost wl_dst Int
+ghost wl_hdrTs Int
+ghost wl_renamed Bool
+
+// C03 / C11 / C15: atomic, durable publication of an LTX file on the file replica.
+func file.(*ReplicaClient).WriteLTXFile(c, ctx, level, minTXID, maxTXID, rd) (info, err)
+  requires c != nil && !wl_renamed
+  modifies $heap, $alloc, file_written, path_synced, path_handle, file_closed, file_mtime, wl_dst, wl_hdrTs, wl_renamed
+  at ltx.PeekHeader#1 set wl_hdrTs = $result0.Timestamp
+  at internal.CreateFile#all assert [C03.tmp-only] hasSuffix($arg0, ".tmp") && $arg0 == tmpFilename
+  at os.Rename#all assert [C03.publish-from-tmp] $arg0 == tmpFilename && $arg1 == filename && tmpFilename == concat(filename, ".tmp") && !wl_renamed
+  at os.Rename#all assert [C11.flush] f != nil && path_handle[$arg0] == f && path_synced[$arg0] && file_closed[f]
+  at os.Rename#1 set wl_dst = $arg1
+  at os.Rename#1 set wl_renamed = ($result0 == nil)
+  at os.Chtimes#all assert [C15.mtime-arg] $arg0 == filename && $arg1 == timestamp && $arg2 == timestamp && wl_renamed
+  ensures [C11.dir] err == nil ==> wl_renamed && path_synced[path_dir(wl_dst)]
+  ensures [C11.content] err == nil ==> path_synced[wl_dst]
+  ensures [C15.mtime] err == nil ==> info != nil && file_mtime[wl_dst] == info.CreatedAt
+  ensures [C05.error] err != nil ==> info == nil
+*/
